@@ -29,17 +29,51 @@ def r_C09(root):
         elif e["delayed"] and not e["requeue"]: bad = "delayed but not re-queued"
         ob("C09", "C09.a", M, W, "path class %s" % (sig,), bad is None)
         if bad: out.append(Finding("C09", "C09.a", M, W, "path " + str(sorted(k for k, v in r.val.items() if v))[:200], bad))
-    # b: driver loop
+    # b: driver loop, by evaluation (sa/pyeval.py): the rounds loop of parse_tree_to_objgraph (with the assignments right before it) is
+    #    interpreted with scripted resolvers (what each model's resolve_one_step reports in each round); documented: a round is run,
+    #    and another one follows iff references are left AND the last round resolved something (every round counts afresh)
+    from sa import pyeval as _pe
     drv, wl, rc, uc, ml = RS.driver(root)
-    inst += 1
-    conj = RS.continue_atoms(drv, wl)
-    okb = ("%s>0" % uc) in conj and ("%s>0" % rc) in conj
-    if not okb: out.append(Finding("C09", "C09.b", M, "parse_tree_to_objgraph", ast.unparse(wl.test), "driver loop lacks the progress condition (termination): it goes on only while %s" % sorted(conj)))
-    resets = [ast.unparse(s).replace(" ", "") for s in wl.body[:4]]
-    # a loop whose exit test comes first (`while True: if not (...): break`) resets the counters right after it
-    okr = ("%s=0" % rc) in resets and ("%s=0" % uc) in resets
-    if not okr: out.append(Finding("C09", "C09.b", M, "parse_tree_to_objgraph", "while body", "counters are not reset at the top of each round"))
-    ob("C09", "C09.b", M, "parse_tree_to_objgraph", "while %s" % ast.unparse(wl.test), okb and okr)
+    blk_ = block_of(wl); i_ = [k for k, x in enumerate(blk_) if x is wl][0]
+    pre_ = []
+    for st_ in reversed(blk_[:i_]):
+        if isinstance(st_, ast.Assign) and all(isinstance(t_, ast.Name) for t_ in st_.targets) and isinstance(st_.value, (ast.Constant, ast.Name, ast.UnaryOp)): pre_.insert(0, st_)
+        else: break
+    iters_ = {n.iter.id for n in ast.walk(wl) if isinstance(n, ast.For) and isinstance(n.iter, ast.Name)}
+    if not iters_: raise AnalysisError("rounds loop: loop over the models not found")
+    after_ = next_stmt(wl)
+    SCRIPTS = [("everything resolves in the first round", [[(2, 0), (1, 0)]], 1, False),
+               ("one reference needs a second round", [[(1, 1), (0, 0)], [(1, 0), (0, 0)]], 2, False),
+               ("nothing can be resolved", [[(0, 1), (0, 0)]], 1, True),
+               ("progress in the first round, none in the second", [[(1, 1), (1, 0)], [(0, 1), (0, 0)]], 2, True),
+               ("the models unblock each other over three rounds", [[(1, 1), (0, 1)], [(0, 1), (1, 0)], [(1, 0), (0, 0)]], 3, False),
+               ("a lot resolved early, a cycle left", [[(5, 2), (3, 0)], [(0, 2), (0, 0)]], 2, True)]
+    for what, script, want_rounds, want_left in SCRIPTS:
+        inst += 1
+        calls_ = []
+        def mkres(mi):
+            def step():
+                rnd = sum(1 for x in calls_ if x == mi); calls_.append(mi)
+                cnt, nd = script[rnd][mi] if rnd < len(script) else (0, script[-1][mi][1])
+                return (cnt, [("obj", "attr", {".kind": "crossref"})] * nd)
+            return {".resolve_one_step": _pe.PyFn(step), ".delayed_crossrefs": [], ".parser": {".pos_to_linecol": _pe.PyFn(lambda p_: (1, p_))}, ".kind": "resolver"}
+        models_ = [{".kind": "model", "._tx_reference_resolver": mkres(0), "._tx_filename": "a"}, {".kind": "model", "._tx_reference_resolver": mkres(1), "._tx_filename": "b"}]
+        env = {"__module__": load(root, M), "parser": {".debug": False, ".dprint": _pe.PyFn(lambda *a: None)}, "metamodel": {".debug": False}, "model": models_[0]}
+        for nm in iters_: env[nm] = models_
+        try: _pe.run_block(pre_ + [wl], env, max_steps=1500); outcome = None
+        except _pe.Raised as r_: outcome = "raises %s" % r_.cls
+        except _pe.Unsupported as u_:
+            if "too many steps" in str(u_): outcome = "does not terminate"
+            else: raise AnalysisError("rounds loop: outside the evaluated subset: %s" % u_)
+        rounds = calls_.count(0)
+        left = None
+        if outcome is None and isinstance(after_, ast.If):
+            try: left = bool(_pe.evaluate(after_.test, env))
+            except (_pe.Unsupported, _pe.Raised): left = None
+        okb = outcome is None and rounds == want_rounds and calls_.count(1) == want_rounds and (left is None or left == want_left)
+        ob("C09", "C09.b", M, "parse_tree_to_objgraph", "%s: %s round(s)" % (what, rounds if outcome is None else outcome), okb)
+        if not okb:
+            out.append(Finding("C09", "C09.b", M, "parse_tree_to_objgraph", what, "resolution rounds with scripted resolvers (%s): the loop %s; documented: %d round(s), then %s" % (what, outcome or "runs %d round(s) for the first and %d for the second model and %s" % (rounds, calls_.count(1), "reports unresolved references" if left else "reports none"), want_rounds, "the unresolved-reference error" if want_left else "success"), witness="two files that reference each other"))
     # c: the failure after a round without progress
     inst += 1
     after = next_stmt(wl)
@@ -179,81 +213,8 @@ def r_C05_C10(root):
     oko = bool(pre) and bool(post) and len(pre) + len(post) == len(apps_c) and all(nid(a) < min(nid(r) for r in recs_c) for a in pre) and all(nid(a) > max(nid(r) for r in recs_c) for a in post)
     ob("C05", "C05.b", M, "get_children.follow", "collection before the descent unless children_first, after it if children_first", oko)
     if not oko: out.append(Finding("C05", "C05.b", M, "get_children.follow", "children_first", "collection order does not follow children_first (pre-order collection before every descent, post-order after)"))
-    # C10
-    P = "textx/scoping/providers.py"; fo = find_i(root, P, "FQN.__call__._find_obj_fqn.find_obj"); inst += 1
-    fi_fo = sem.info(fo)
-    loops = []
-    for n in ast.walk(fo):
-        if isinstance(n, ast.For):
-            it = fi_fo.expand(n.iter, at=n.iter)
-            if any(isinstance(x, ast.Attribute) and x.attr == "__dict__" for x in ast.walk(it)) or "_tx_attrs" in ast.unparse(it): loops.append((n, it))
-    if not loops: raise AnalysisError("FQN.find_obj: attribute walk not found")
-    walk, walk_iter = loops[0]
-    src = ast.unparse(walk_iter)
-    if ".cont" not in src and not any(".cont" in ast.unparse(g) for n in ast.walk(walk) for g, pol in guards(n) if pol and isinstance(n, ast.Return)):
-        out.append(Finding("C10", "C10.a", P, "FQN.find_obj", src[:120], "candidate attributes are not restricted to containment (parent link and references are walked)", witness="package p { package q { } }  ref p.q.p"))
-    # C10.f: the containment table consulted for the attributes of X is the table of X's own class
-    inst += 1
-    scanned = next((x.value for x in ast.walk(walk_iter) if isinstance(x, ast.Attribute) and x.attr == "__dict__"), None)
-    tabs = [x.value.value for x in ast.walk(walk_iter) if isinstance(x, ast.Attribute) and x.attr == "cont" and isinstance(x.value, ast.Subscript)]
-    if scanned is not None and tabs:
-        def _table_owner(tb, depth=0):
-            """root object whose class's _tx_attrs the table expression denotes (follows one closure level)"""
-            if isinstance(tb, ast.Name) and depth < 3:
-                for outer in ("FQN.__call__._find_obj_fqn.find_obj", "FQN.__call__._find_obj_fqn", "FQN.__call__"):
-                    try: of = find(load(root, P), outer)
-                    except AnalysisError: continue
-                    ds = [n for n in own_nodes(of) if isinstance(n, ast.Assign) and any(isinstance(tg, ast.Name) and tg.id == tb.id for tg in n.targets)]
-                    if len(ds) == 1: return _table_owner(ds[0].value, depth + 1)
-                    if ds: return None
-                return None
-            if "_tx_attrs" not in ast.unparse(tb): return None
-            for x in ast.walk(tb):
-                if isinstance(x, ast.Attribute) and x.attr == "__class__": return ast.unparse(x.value)
-                if isinstance(x, ast.Call) and callee_name(x) == "type" and len(x.args) == 1: return ast.unparse(x.args[0])
-            return None
-        for tb in tabs:
-            own = _table_owner(tb)
-            okf = own is not None and own == ast.unparse(scanned)
-            ob("C10", "C10.f", P, "FQN.find_obj", "containment table of %s used for the attributes of %s" % (own, ast.unparse(scanned)), okf)
-            if not okf: out.append(Finding("C10", "C10.f", P, "FQN.find_obj", "%s[...].cont" % ast.unparse(tb)[:60], "the attributes of %s are filtered with the containment table of %s: for an object of another class its reference attributes are unknown to that table (or containment there) and are walked" % (ast.unparse(scanned), own or "an unidentified object"), witness="a.B.C where B is of another class than the scope start and B.ref points to an object named C"))
-    inst += 1
-    br = next((n for n in ast.walk(walk) if isinstance(n, ast.If) and "isinstance(obj, (list, tuple))" in ast.unparse(n.test)), None)
-    if br is None or not (any(isinstance(x, ast.Return) for b in br.body for x in ast.walk(b)) and any(isinstance(x, ast.Return) for b in br.orelse for x in ast.walk(b))):
-        out.append(Finding("C10", "C10.c", P, "FQN.find_obj", "list / scalar branches", "one of the list-valued / single-valued branches does not return a match"))
-    fr = find(load(root, P), "FQN.__call__._find_referenced_obj"); inst += 1
-    fif = sem.info(fr); cfgf = fif.cfg; p0 = fr.args.args[0].arg
-    scalls = [c for c in calls(fr) if callee_name(c) == "_find_obj_fqn" and c.args]
-    if not scalls: raise AnalysisError("_find_referenced_obj: no search call found")
-    # the cursor: the one variable every search starts at; it is the parameter or a local initialised from it, and only ever moves to its .parent
-    curs = {ast.unparse(c.args[0]) for c in scalls}
-    cur = next(iter(curs)) if len(curs) == 1 and all(isinstance(c.args[0], ast.Name) for c in scalls) else None
-    if cur is None:
-        bad_c = next(c for c in scalls if not isinstance(c.args[0], ast.Name) or ast.unparse(c.args[0]) != p0)
-        out.append(Finding("C10", "C10.b", P, "FQN._find_referenced_obj", " ".join(ast.unparse(bad_c).split())[:100], "a search is started at %s, which is neither the referencing object nor one of its ancestors reached by climbing: a chain further out wins over the nearest one" % ast.unparse(bad_c.args[0]), witness="the same dotted chain exists at top level and in a nearer enclosing package"))
-    else:
-        def _asg(n): return n.kind == "stmt" and isinstance(n.ast, ast.Assign) and any(isinstance(tg, ast.Name) and tg.id == cur for tg in n.ast.targets)
-        searches = [n for n in cfgf.nodes if n.ast is not None and n.kind in ("stmt", "return", "cond") and any(callee_name(c) == "_find_obj_fqn" for c in calls(n.ast))]
-        inits = [n for n in cfgf.nodes if _asg(n) and cur != p0 and ast.unparse(n.ast.value) == p0]
-        moves = [n for n in cfgf.nodes if _asg(n) and n not in inits]
-        rooted = cur == p0 or (bool(inits) and not any(cfgf.paths_avoiding(cfgf.entry, s_, lambda n: n in inits) for s_ in searches))
-        starts_here = rooted and any(cfgf.paths_avoiding(cfgf.entry, s_, lambda n: n in moves) for s_ in searches) and not any(cfgf.paths_avoiding(cfgf.entry, m, lambda n: n in searches) for m in moves)            # the referencing object itself is searched before any step outward
-        only_parent = all(ast.unparse(m.ast.value).replace(" ", "") in (cur + ".parent",) for m in moves)
-        repeats = any(cfgf.paths_avoiding(m, s_, lambda n: False) for m in moves for s_ in searches)           # after a step outward the search is repeated
-        okb_ = bool(searches and moves and starts_here and only_parent and repeats)
-        ob("C10", "C10.b", P, "FQN._find_referenced_obj", "search cursor %s: starts at the referencing object, climbs .parent only, search repeated after each climb" % cur, okb_)
-        if not okb_:
-            out.append(Finding("C10", "C10.b", P, "FQN._find_referenced_obj", "search order", "search does not start at the referencing object and continue outward through its ancestors (starts at the object: %s, climbs only .parent: %s, repeats after climbing: %s)" % (bool(starts_here), only_parent, bool(repeats))))
-    # the outward search is started at the referencing object itself: the provider hands its own first parameter to the search
-    fq_call = find(load(root, P), "FQN.__call__"); inst += 1
-    fqi = sem.info(fq_call); cobj = fq_call.args.args[1].arg
-    starts = [c for c in calls(fq_call, own=True) if callee_name(c) == fr.name and c.args]
-    if not starts: raise AnalysisError("FQN.__call__: start of the search not found")
-    for c in starts:
-        a0 = fqi.expand(c.args[0], at=c)
-        oks_ = isinstance(a0, ast.Name) and a0.id == cobj
-        ob("C10", "C10.b", P, "FQN.__call__", "search starts at the referencing object (%s)" % ast.unparse(a0)[:40], oks_)
-        if not oks_: out.append(Finding("C10", "C10.b", P, "FQN.__call__", " ".join(ast.unparse(c).split())[:100], "the search starts at %s instead of the referencing object: a chain that begins inside the referencing object itself is missed or a farther one wins" % ast.unparse(a0)[:50], witness="class K extends X.Y { class X { class Y {} } }"))
+    # C10.a/b/c/f (the FQN search itself) are decided by evaluation: C10.h, sa/rules/c10e.py
+    P = "textx/scoping/providers.py"
     # FQNImportURI: the redirection through the models loaded by an import statement exists only with importAs
     fqi_init = find(load(root, P), "FQNImportURI.__init__"); inst += 1
     fi_i = sem.info(fqi_init)
@@ -269,10 +230,6 @@ def r_C05_C10(root):
         okr_ = any(a.replace(" ", "") == "importAs" and pol for a, pol in fi_i.atoms_at(st_)) or any(ast.unparse(g_).replace(" ", "") == "importAs" and pol for g_, pol in guards(st_))
         ob("C10", "C10.g", P, "FQNImportURI.__init__", "loaded-models redirection only under importAs", okr_)
         if not okr_: out.append(Finding("C10", "C10.g", P, "FQNImportURI.__init__", " ".join(ast.unparse(st_).split())[:90], "the scope redirection through the models loaded by an import statement is installed although importAs is off: a name that starts with the import's name walks into the imported models through a non-containment link", witness="FQNImportURI() (importAs=False), a named import object L, reference L.p.A"))
-    ff = find(load(root, P), "FQN.__call__._find_obj_fqn"); inst += 1
-    fiq = sem.info(ff)
-    rets = [r for r in own_nodes(ff) if isinstance(r, ast.Return) and ast.unparse(r.value) == "p"]
-    if not rets or not all(any(a.replace(" ", "").startswith("textx_isinstance(") and pol for a, pol in fiq.atoms_at(r)) for r in rets): out.append(Finding("C10", "C10.b", P, "FQN._find_obj_fqn", "return p", "match returned without type conformance test"))
     return inst, out
 def r_C02cd(root):
     pn = find_i(root, M, "parse_tree_to_objgraph.process_node"); out = []; inst = 0
